@@ -294,6 +294,7 @@ type sim struct {
 	pendingBefore bool
 	sinceRestart  map[string]bool         // services written / made inadmissible since the restart
 	recR          map[string][]netip.Addr // during a restart: the statuses at the crash
+	blame         map[string]bool         // during a restart: victim -> whoever held its recorded address when the victim's handler ran had a record itself
 	thefts        map[string]bool         // during a restart: victim -> the service that took its recorded address had a record itself
 }
 
@@ -555,6 +556,21 @@ func (s *sim) afterService(name string, svc *v1.Service, pre vw.Holders, preIPs 
 		s.last[name] = s.specs[name]
 	}
 	now := ipsToAddrs(s.c.ips.IPs(name))
+	if s.recR != nil && svc != nil {
+		// the service could not re-claim a recorded address: who holds it at this moment?
+		if _, done := s.blame[name]; !done {
+			for _, a := range s.recR[name] {
+				if containsAddr(now, a) {
+					continue
+				}
+				for o := range s.ever {
+					if o != name && containsAddr(ipsToAddrs(s.c.ips.IPs(o)), a) {
+						s.blame[name] = s.blame[name] || len(s.recR[o]) > 0
+					}
+				}
+			}
+		}
+	}
 	if s.recR != nil {
 		for _, a := range now {
 			for o, as := range s.recR {
@@ -1127,7 +1143,7 @@ func (s *sim) restart(op ctrlOp) {
 			s.touched[k] = true
 		}
 	}
-	s.recR, s.thefts, s.sinceRestart = R, map[string]bool{}, map[string]bool{}
+	s.recR, s.thefts, s.sinceRestart, s.blame = R, map[string]bool{}, map[string]bool{}, map[string]bool{}
 	s.crash = ""
 	s.fail = append([]bool(nil), op.Fail...) // status writes failing during the first passes of the new instance
 	s.readFail = append([]bool(nil), op.ReadFail...)
@@ -1234,6 +1250,13 @@ func (s *sim) restartJudge() {
 		sig := "restart-lost:no-thief"
 		if had, seen := s.thefts[k]; seen && thief == "" {
 			thief, thiefHadRecord = "(transient)", had
+		}
+		if had, seen := s.blame[k]; seen {
+			// what counts is who held the address when this service was processed, not who picked it up afterwards
+			if thief == "" {
+				thief = "(transient)"
+			}
+			thiefHadRecord = had
 		}
 		if thief != "" {
 			sig = fmt.Sprintf("restart-lost:thief-had-recorded-address=%v", thiefHadRecord)
